@@ -7,6 +7,7 @@ import AfkakProofs.Client.Hosts
 import AfkakProofs.Client.A_Unavail5
 import AfkakProofs.Client.A_Coroutine
 import AfkakProofs.Client.A_Follow
+import AfkakProofs.Client.A5_MonWitness
 import AfkakProps.Open.C07
 /-!
 # C07 — requests reach the responsible broker; results return in payload order
@@ -312,6 +313,28 @@ theorem C07_unaware_unavailable_only_after_all_counterexample : ¬ Open.C07_unaw
   have := h cfg evs 1 hwf hnf hne (mem_unavResult_of_any (by decide +kernel)) ("b", 2) (by decide)
   exact no_bootConnect_of_all (hp := ("b", 2)) (tr := traceOf cfg {} evs) (by decide +kernel) this
 
+/-- The open statement `C07_model_traces_satisfy_monitor` is FALSE of the model as stated (session 5): `WellFormedRun`
+    admits a `connected()` report (`Ev.conn b v`) for a broker client that does not exist yet - a silent no-op of the
+    model (no `badOp`), but the monitor files the report under the id `b`; the broker client created later with that id
+    is connected for the monitor and unconnected for the model, and a broker-agnostic request ordered by the model
+    (both brokers unconnected: shuffle order) violates the monitor's "connected brokers first" rule (witness
+    `MonWitness`: `conn 0 true` before any broker client exists).  The real client cannot produce this history (the
+    harness polls `connected()` of broker clients that exist): the statement is too strong, not the code defective; a
+    true version needs the hypothesis `connKnown` (AfkakProofs/Client/A5_MonWitness.lean).  It stays open as stated. -/
+theorem C07_model_traces_satisfy_monitor_counterexample : ¬ Open.C07_model_traces_satisfy_monitor := by
+  open MonWitness in
+  intro h
+  have hwf : WellFormedRun cfg evs := ⟨by decide +kernel, noBadOp_of_all' (by decide +kernel)⟩
+  have hnf : NoFuel cfg {} evs := by
+    simp only [evs, NoFuel, and_true]
+    decide +kernel
+  have := h cfg evs hwf hnf
+  revert this
+  decide +kernel
+
+/-! The witness is excluded by `connKnown`; the runs of the other examples of this file satisfy it. -/
+example : connKnown MonWitness.cfg {} MonWitness.evs = false := by decide +kernel
+
 end Afkak.Props.C07
 
 /- OBLIGATIONS
@@ -328,6 +351,7 @@ C07_unaware_unavailable_only_after_all_partial
 C07_unaware_unavailable_only_after_all_counterexample
 C07_coroutine_requests_and_results
 C07_clients_follow_brokers
+C07_model_traces_satisfy_monitor_counterexample
 -/
 /- OPEN_STATEMENTS
 C07_model_traces_satisfy_monitor
